@@ -4,7 +4,7 @@ import math
 from ..adapters import _attr, close, handed_cell, kind_of
 from ..core import HarnessError, Violation
 from ..observe import cell_id, reachable
-from ..world import Oracle
+from ..world import Oracle, call_lib
 from .. import ledger as L
 
 INF = float("inf")
@@ -39,9 +39,21 @@ class RecommendOracle(Oracle):
         k = self.ik
         self.search = True
         if k in ("DOO", "SOO", "StoSOO", "SequOOL", "StroquOOL"):
-            self.cell = handed_cell(ctx.algo)
-            if k == "SequOOL" and self.cell is ctx.algo.partition.get_root():
-                self.search = False
+            if k == "SequOOL":
+                # after the schedule is exhausted the domain centre is handed out; what the implementation keeps in its
+                # register then is its own business (the root, None, the last child)
+                root = ctx.algo.partition.get_root()
+                try:
+                    self.cell = handed_cell(ctx.algo)
+                except Exception:  # noqa
+                    self.cell = None
+                pending = any(id(c) not in self.cell_rew for call in ctx.rec.calls for c in call["children"])
+                at_centre = _pt(ctx.x) == _pt(root.get_cpoint())
+                if self.cell is root or self.cell is None or (at_centre and not pending and ctx.rec.calls):
+                    self.search = False
+                    self.cell = root
+            else:
+                self.cell = handed_cell(ctx.algo)
             if k == "StroquOOL":
                 if _attr(ctx.algo, "end"):
                     self.search = False
@@ -68,10 +80,14 @@ class RecommendOracle(Oracle):
             for e in ev:
                 if e[0] == "reward" and e[2] != "query":
                     self.learner_rew.setdefault(e[1], []).append(e[3])
-            if k == "GPO" and not self.pull_ev and ctx.t <= 2 * self.N * self.Lh:
-                V_x = _attr(self.inner, "V_x")
-                if V_x:
-                    self.val.setdefault(len(V_x) - 1, []).append(ctx.r)
+            if k == "GPO" and ctx.t <= 2 * self.N * self.Lh:
+                # own phase counter (published schedule), own record of the point under validation
+                ph = (ctx.t - 1) // (2 * self.Lh)
+                w = (ctx.t - 1) % (2 * self.Lh)
+                if w >= self.Lh and not self.pull_ev:
+                    self.val.setdefault(ph, []).append(ctx.r)
+                    self.val_pt = getattr(self, "val_pt", {})
+                    self.val_pt.setdefault(ph, _pt(ctx.x))
         if not ctx.judging:
             return
         self.judge(ctx)
@@ -85,7 +101,7 @@ class RecommendOracle(Oracle):
     def query(self, ctx):
         self.log.phase = "query"
         try:
-            return ctx.algo.get_last_point()
+            return call_lib("get_last_point", ctx.algo.get_last_point)
         finally:
             self.log.phase = "pull"
             self.seen = len(self.log.events)
@@ -156,7 +172,7 @@ class RecommendOracle(Oracle):
             try:
                 for lid, s in score.items():
                     if close(s, best):
-                        props.append(_pt(self.log.instances[lid].pull(0)))
+                        props.append(_pt(call_lib("pull", lambda l=lid: self.log.instances[l].pull(0))))
             finally:
                 self.log.phase = "pull"
                 self.seen = len(self.log.events)
@@ -168,11 +184,18 @@ class RecommendOracle(Oracle):
             if not self.val:
                 return  # before the first validation: finding D10 of C01
             x = _pt(self.query(ctx))
-            V_x = _attr(self.inner, "V_x")
-            score = {j: sum(r) / len(r) for j, r in self.val.items()}
-            best = max(score.values())
-            ok = [j for j, s in score.items() if close(s, best) and j < len(V_x) and _pt(V_x[j]) == x]
+            pts = getattr(self, "val_pt", {})
+            # scores of the completed validations, or including the running one: both admitted
+            done = {j: sum(r) / len(r) for j, r in self.val.items() if len(r) >= self.Lh}
+            anyv = {j: sum(r) / len(r) for j, r in self.val.items()}
+            ok = False
+            for score in (done, anyv):
+                if not score:
+                    continue
+                best = max(score.values())
+                if any(close(s, best, 1e-9, max(abs(v) for v in self.val[j])) and pts.get(j) == x for j, s in score.items()):
+                    ok = True
             if not ok:
-                raise Violation("C07.best", "GPO recommended %r, not a validated point of maximal score %r (scores %r) (round %d)"
-                                % (list(x), best, score, t), round=t)
+                raise Violation("C07.best", "GPO recommended %r, not a validated point of maximal score (scores %r, points %r) (round %d)"
+                                % (list(x), anyv, pts, t), round=t)
             st.bump("recommendations_judged")
